@@ -23,6 +23,11 @@ Python computes no expected value: which rays / points are in general position, 
 crossed, which hit is first, inside / outside and every distance are decided by TLC.
 Records outside the property's quantifier come back as SKIP_ clauses and are only counted.
 
+Placements: part of the rays / points is run again with the whole scene (mesh vertices, ray origins, query
+points) translated far from the origin by an exact integer offset ((5e5, 4.1e6, 120) and 2^20 on each axis:
+absolute coordinates ~1e6 times the size of the mesh).  The offset is subtracted exactly from every returned
+coordinate before snapping and TLC judges in the lattice frame; rejections there carry "@<placement>".
+
 Named deviation (RayProx.tla, EngClause): CoplanarRayPhantomHit - a first-hit query names a triangle
 whose supporting plane contains the ray although the ray is clear of the triangle.  Observed on the
 pinned tree with the float32 embree engine (intersects_first / intersects_any / intersects_id(
@@ -56,6 +61,18 @@ SNAP_PT = 256          # closest points
 SNAP_D2 = 1024         # squared distances
 RESID = {"native": 1e-9, "embree": 1e-4}     # embree traces in float32
 RESID_PROX = 1e-9
+# Placements: the same lattice scene translated by an exact integer offset T (mesh vertices, ray origins and
+# query points alike).  Results are brought back to the lattice frame by subtracting T (exact in float64)
+# before snapping; TLC judges in the lattice frame.  A float64 result near T cannot be closer to the exact
+# value than a few units in the last place of |T|, so the 1e-9 residual of the float64 routes grows by
+# 64 ulp(max |T|) (6e-8 at 4.1e6); the embree residual stays 1e-4 (the wrapper subtracts the scene origin in
+# float64 before going to float32, so far placements must not cost any accuracy).
+PLACEMENTS = [("origin", (0, 0, 0)), ("far_5e5_4.1e6_120", (500000, 4100000, 120)),
+              ("far_2^20", (2 ** 20, 2 ** 20, 2 ** 20))]
+
+
+def far_slack(T):
+    return 64 * 2.0 ** -52 * max(abs(x) for x in T)
 CHUNK = 256
 
 MEANING = {
@@ -231,8 +248,8 @@ def ray_items(tier, mi, me, rs):
         # (the far triangle / far body has every vertex outside the origin range and is not aimed at)
         near = [v for v in me["verts"] if all(-2 <= x <= 5 for x in v)]
         lo, hi = np.min(near, axis=0).tolist(), np.max(near, axis=0).tolist()
-        for k, origins, nax, nob, nfree in ((1, ORIG1, 50, 900, 200), (2, ORIG2, 40, 600, 100),
-                                            (4, ORIG4, 40, 800, 100)):
+        for k, origins, nax, nob, nfree in ((1, ORIG1, 40, 700, 150), (2, ORIG2, 30, 450, 80),
+                                            (4, ORIG4, 30, 650, 80)):
             allrays = [(origins[a], k, DIRS[b]) for a, b in
                        zip(rs.randint(0, len(origins), 40 * nob), rs.randint(0, len(DIRS), 40 * nob))]
             aimed = [r for r in allrays if through_box(r[0], r[1], r[2], lo, hi)]
@@ -299,18 +316,18 @@ def proj_hit(face, loc, resid):
     return {"f": int(face), "n": s[0], "q": s[1], "offlattice": ""}
 
 
-def proj_d2(x):
+def proj_d2(x, resid):
     """distance -> distance^2 as a fraction"""
     x = float(x)
-    s = snap_vec([x * x], SNAP_D2, RESID_PROX, SNAP_D2)
+    s = snap_vec([x * x], SNAP_D2, resid, SNAP_D2)
     if s is None:
         return None
     return s[0][0], s[1]
 
 
 # ------------------------------------------------------------------ calling the real code
-def build(trimesh, me):
-    m = trimesh.Trimesh(vertices=np.array(me["verts"], dtype=np.float64),
+def build(trimesh, me, T=(0, 0, 0)):
+    m = trimesh.Trimesh(vertices=np.array(me["verts"], dtype=np.float64) + np.array(T, dtype=np.float64),
                         faces=np.array(me["faces"], dtype=np.int64), process=False)
     if len(m.faces) != len(me["faces"]) or len(m.vertices) != len(me["verts"]):
         raise MachineryError("Trimesh(process=False) changed the input")
@@ -371,12 +388,14 @@ def query_rays(eng, o, d):
 def record_rays(chunk):
     trimesh = import_trimesh()
     np.random.seed(seed() + 1)
-    mi, me, items = chunk
-    m = build(trimesh, me)
+    mi, me, pl, items = chunk
+    T = np.array(PLACEMENTS[pl][1], dtype=np.float64)
+    resid = {name: r + (far_slack(T) if name == "native" else 0.0) for name, r in RESID.items()}
+    m = build(trimesh, me, T)
     engines = engines_for(trimesh, m)
-    o = np.array([[x / it["k"] for x in it["O"]] for it in items], dtype=np.float64)
+    o = np.array([[x / it["k"] for x in it["O"]] for it in items], dtype=np.float64) + T
     d = np.array([it["d"] for it in items], dtype=np.float64)
-    recs = [{"id": 0, "exc": "", "kind": "ray", "m": mi + 1, "o": it["O"], "k": it["k"], "d": it["d"],
+    recs = [{"id": 0, "exc": "", "kind": "ray", "m": mi + 1, "pl": pl, "o": it["O"], "k": it["k"], "d": it["d"],
              "laws": False, "eng": []} for it in items]
     for name, eng in engines:
         try:
@@ -396,17 +415,17 @@ def record_rays(chunk):
                 continue
             recs[j]["eng"].append({
                 "name": name,
-                "locm": [proj_hit(f, p, RESID[name]) for f, p in r["locm"]],
-                "loc1": [proj_hit(f, p, RESID[name]) for f, p in r["loc1"]],
+                "locm": [proj_hit(f, p - T, resid[name]) for f, p in r["locm"]],
+                "loc1": [proj_hit(f, p - T, resid[name]) for f, p in r["loc1"]],
                 "idm": r["idm"], "id1": r["id1"], "first": r["first"], "any": r["any"]})
     return recs
 
 
-def proj_near(api, res, j):
+def proj_near(api, res, j, T, resid):
     closest, dist, tid = res
     o = {"api": api, "offlattice": "", "Q": [0, 0, 0], "qd": 1, "d2n": 0, "d2d": 1, "tid": int(np.asarray(tid)[j])}
-    s = snap_vec(np.asarray(closest)[j], SNAP_PT, RESID_PROX, SNAP_PT)
-    d2 = proj_d2(np.asarray(dist)[j])
+    s = snap_vec(np.asarray(closest, dtype=np.float64)[j] - T, SNAP_PT, resid, SNAP_PT)
+    d2 = proj_d2(np.asarray(dist)[j], resid)
     if s is None:
         o["offlattice"] = "closest_point"
     elif d2 is None:
@@ -433,14 +452,14 @@ def query_points(trimesh, m, engines, pts):
     return res
 
 
-def fill_point(rec, res, j):
+def fill_point(rec, res, j, T, resid):
     rec["cont"] = [{"name": name, "v": bool(v[j])} for name, v in res["cont"]]
-    rec["near"] = [proj_near(api, r, j) for api, r in res["near"]]
+    rec["near"] = [proj_near(api, r, j, T, resid) for api, r in res["near"]]
     sd = float(res["sd"][j])
-    d2 = proj_d2(sd)
+    d2 = proj_d2(sd, resid)
     rec["sd"] = {"offlattice": "" if d2 else "distance", "d2n": d2[0] if d2 else 0, "d2d": d2[1] if d2 else 1,
                  "sign": int(np.sign(sd)) if math.isfinite(sd) else 0}
-    d2 = proj_d2(res["vtx"][0][j])
+    d2 = proj_d2(res["vtx"][0][j], resid)
     rec["vtx"] = {"offlattice": "" if d2 else "distance", "d2n": d2[0] if d2 else 0, "d2d": d2[1] if d2 else 1,
                   "vid": int(res["vtx"][1][j])}
 
@@ -448,22 +467,25 @@ def fill_point(rec, res, j):
 def record_points(chunk):
     trimesh = import_trimesh()
     np.random.seed(seed() + 2)        # contains_points retries along a numpy-random direction
-    mi, me, items = chunk
-    m = build(trimesh, me)
+    mi, me, pl, items = chunk
+    T = np.array(PLACEMENTS[pl][1], dtype=np.float64)
+    resid = RESID_PROX + far_slack(T)
+    m = build(trimesh, me, T)
     engines = engines_for(trimesh, m)
-    pts = np.array([[x / it["k"] for x in it["P"]] for it in items], dtype=np.float64)
-    recs = [{"id": 0, "exc": "", "kind": "pt", "m": mi + 1, "p": it["P"], "k": it["k"], "laws": False}
+    pts = np.array([[x / it["k"] for x in it["P"]] for it in items], dtype=np.float64) + T
+    recs = [{"id": 0, "exc": "", "kind": "pt", "m": mi + 1, "pl": pl, "p": it["P"], "k": it["k"], "laws": False}
             for it in items]
     try:
         res = query_points(trimesh, m, engines, pts)
         for j in range(len(items)):
-            fill_point(recs[j], res, j)
+            fill_point(recs[j], res, j, T, resid)
     except MachineryError:
         raise
     except Exception:  # noqa
         for j in range(len(items)):
             try:
-                fill_point(recs[j], query_points(trimesh, build(trimesh, me), engines, pts[j:j + 1]), 0)
+                m1 = build(trimesh, me, T)
+                fill_point(recs[j], query_points(trimesh, m1, engines_for(trimesh, m1), pts[j:j + 1]), 0, T, resid)
             except Exception as e:  # noqa
                 recs[j]["exc"] = type(e).__name__
     return recs
@@ -472,7 +494,7 @@ def record_points(chunk):
 def run_chunk(chunks):
     out = []
     for c in chunks:
-        out += record_rays(c) if c[2][0]["kind"] == "ray" else record_points(c)
+        out += record_rays(c) if c[3][0]["kind"] == "ray" else record_points(c)
     return out
 
 
@@ -536,15 +558,22 @@ def main(argv):
     blocks = []
     for mi, me in enumerate(meshes):
         rs = np.random.RandomState(seed() * 1000 + 12 + mi)
-        blocks.append((me["name"], ray_items(tier, mi, me, rs) + point_items(tier, mi, me, rs)))
+        base = ray_items(tier, mi, me, rs) + point_items(tier, mi, me, rs)
+        items = [dict(it, pl=0) for it in base]
+        # far placements: a sixth of the quick sample each / a seeded tenth of the thorough product each
+        pick = rs.randint(0, 10 if big else 6, size=len(base))
+        for pl in range(1, len(PLACEMENTS)):
+            items += [dict(it, pl=pl) for it, r in zip(base, pick) if r == pl - 1]
+        blocks.append((me["name"], items))
     if not big:
         blocks = [("quick", [it for _, items in blocks for it in items])]
     for label, items in blocks:
         chunks = []
         for kind in ("ray", "pt"):
             for mi, me in enumerate(meshes):
-                sel = [it for it in items if it["kind"] == kind and it["mi"] == mi]
-                chunks += [(mi, me, sel[a:a + CHUNK]) for a in range(0, len(sel), CHUNK)]
+                for pl in range(len(PLACEMENTS)):
+                    sel = [it for it in items if it["kind"] == kind and it["mi"] == mi and it["pl"] == pl]
+                    chunks += [(mi, me, pl, sel[a:a + CHUNK]) for a in range(0, len(sel), CHUNK)]
         cases = [c for r in pmap(run_chunk, chunks, chunk=1) for c in r]
         if len(cases) != len(items):
             raise MachineryError("records lost in block " + label)
@@ -567,6 +596,10 @@ def main(argv):
                 continue
             add(kind + "_validated")
             pm[kind + "_validated"] = pm.get(kind + "_validated", 0) + 1
+            plname = PLACEMENTS[c["pl"]][0]
+            add("%s_validated@%s" % (kind, plname))
+            if kind == "ray" and c["eng"] and c["eng"][0]["locm"]:
+                add("rays_with_hits@" + plname)
             if cl.startswith("NOTE_"):
                 add(cl)
                 cl = "ok"
@@ -595,8 +628,10 @@ def main(argv):
                 me = meshes[c["m"] - 1]
                 detail = {"mesh": me["name"], "vertices": me["verts"], "faces": me["faces"],
                           "meaning": meaning(cl)}
-                detail.update({k: v for k, v in c.items() if k not in ("id", "m", "laws")})
-                V.violation(cl, detail, DEVIATIONS.get(cl.split(":")[-1]))
+                detail["placement"] = {"name": plname, "offset_added_to_mesh_rays_points": list(PLACEMENTS[c["pl"]][1])}
+                detail.update({k: v for k, v in c.items() if k not in ("id", "m", "laws", "pl")})
+                # the clause is TLC's; the placement (an attribute of the input) is appended for far placements
+                V.violation(cl if c["pl"] == 0 else cl + "@" + plname, detail, DEVIATIONS.get(cl.split(":")[-1]))
         for kind in ("ray", "pt"):
             pool = [c for c in cases if c["kind"] == kind and not verdicts.get(c["id"], "").startswith("SKIP_")
                     and (kind == "pt" or (c["eng"] and len(c["eng"][0]["locm"]) >= 2))]
@@ -608,6 +643,8 @@ def main(argv):
     need = {"ray_validated": 2000, "pt_validated": 500, "rays_axis_aligned": 100, "rays_oblique": 1000,
             "rays_origin_strictly_inside_bounds": 50, "rays_2_hits": 100, "rays_1_hits": 100, "rays_0_hits": 100,
             "points_reported_inside": 20, "points_reported_outside": 200, "ray_SKIP_degenerate_ray": 1}
+    for plname, _ in PLACEMENTS[1:]:
+        need.update({"ray_validated@" + plname: 1000, "rays_with_hits@" + plname: 200, "pt_validated@" + plname: 300})
     short = {k: n.get(k, 0) for k, v in need.items() if n.get(k, 0) < v}
     if short and not V.violations:
         raise MachineryError("enumeration degenerate: %s" % short)
@@ -634,6 +671,9 @@ def main(argv):
         "points_without_parity_direction": n.get("NOTE_no_parity_direction_in_general_position", 0),
         "containment_observations": n.get("containment_observations", 0),
         "closest_point_observations": n.get("closest_point_observations", 0),
+        "placements": [{"name": nm, "offset": list(T), "rays_validated": n.get("ray_validated@" + nm, 0),
+                        "rays_with_hits": n.get("rays_with_hits@" + nm, 0),
+                        "points_validated": n.get("pt_validated@" + nm, 0)} for nm, T in PLACEMENTS],
         "per_mesh": per_mesh,
         "rejected": n.get("rejected", 0),
         "blocks": block_log,
@@ -642,16 +682,21 @@ def main(argv):
             "thorough: per mesh every ray (origin, direction) with origin in {-2..5}^3, the half-odd points "
             "{-3/2..9/2}^3 or the quarter points {-7/4, -3/4, .. 21/4}^3 and direction in {-2..2}^3 \\ 0, and "
             "every quarter-lattice point of {-7/4..21/4}^3 "
-            "with at least two odd-quarter coordinates" if big else
+            "with at least two odd-quarter coordinates; a seeded tenth of these rays and points again at each of "
+            "the two far placements" if big else
             "quick: per mesh a seeded sample of rays (origins {-2..5}^3, half-odd {-3/2..9/2}^3 and odd-quarter "
-            "{-7/4..21/4}^3, directions {-2..2}^3 \\ 0): ~2300 random (origin, direction) pairs aimed through the "
-            "bounding box of the near bodies, 400 unaimed ones, all six axis directions x up to 160 origins, up to "
+            "{-7/4..21/4}^3, directions {-2..2}^3 \\ 0): ~1800 random (origin, direction) pairs aimed through the "
+            "bounding box of the near bodies, 310 unaimed ones, all six axis directions x up to 130 origins, up to "
             "800 rays lying in the plane of a face (all of those in the plane of an oblique face, up to 600); and "
             "up to 1500 of the 3375 "
-            "odd-quarter points of {-7/4..21/4}^3 (up to 900 of them inside the bounding box of the near bodies)"),
+            "odd-quarter points of {-7/4..21/4}^3 (up to 900 of them inside the bounding box of the near bodies); a sixth of these rays and points again at "
+            "each of the two far placements"),
         "snapping": ("hit locations: Fraction.limit_denominator(%d), residual 1e-9 (native engine) / 1e-4 (embree "
                      "engine, float32 tracing); closest points: denominator <= %d, squared distances: denominator "
-                     "<= %d, residual 1e-9; residuals relative to max(1, |x|)" % (SNAP_RAY, SNAP_PT, SNAP_D2)),
+                     "<= %d, residual 1e-9; residuals relative to max(1, |x|).  Far placements: the exact integer "
+                     "offset is subtracted (exactly) before snapping; the float64 residual 1e-9 grows by 64 ulp of "
+                     "the largest offset component (6e-8 at 4.1e6, the resolution of a double there), the embree "
+                     "residual stays 1e-4" % (SNAP_RAY, SNAP_PT, SNAP_D2)),
         "general_position": "decided by TLC (RayProx.tla): margin 1/64 on t and on the barycentric coordinates of "
                             "every triangle (two-sided), no two crossings at one t; query points at least 1/8 off "
                             "the surface",
@@ -664,6 +709,8 @@ def main(argv):
         "a returned float is accepted when within the residual of the exact fraction (1e-9; 1e-4 for hit locations "
         "of the float32 embree engine)",
         "agreement of the two engines is implied: both are compared with the same exact reference",
+        "translation by an exact integer offset does not change any answer: far placements are judged by TLC in "
+        "the untranslated lattice frame",
         "rays / points not in general position (decided by TLC) are excluded, as the property's quantifier does",
         "containment and the sign of the signed distance are judged on closed, outward-wound meshes only "
         "(closedness and orientation checked by TLC); on the open far-triangle mesh only rays, closest point, "
